@@ -305,6 +305,14 @@ func (cd *cmdDispatcher) addHandler(cmdToken string, handler cmdHandler) {
 func (cd *cmdDispatcher) prepare(cs *clientState, input respValue) (ctx *cmdContext, response any) {
 	l := cs.l
 
+	// a command that is rejected while a transaction is being queued makes
+	// the later EXEC fail without executing anything
+	defer func() {
+		if ctx == nil && response != nil && cs.cmdQueue != nil {
+			cs.cmdQueueFailed = true
+		}
+	}()
+
 	traceJson, _ := json.Marshal(input.toNative())
 	l.Tracef("client %d dispatching %s", cs.id, string(traceJson))
 
